@@ -1,6 +1,110 @@
-(* C10 - property theorems only (filled in below). *)
-From Coq Require Import List.
-From VV Require Import C10.Model C10.Proofs.
-Theorem C10_placeholder : True.
-Proof. exact I. Qed.
-Print Assumptions C10_placeholder.
+(* C10 - property theorems only.  Each is closed by [exact]; see C10/Proofs.v,
+   C10/Floats.v, C10/ApolloProofs.v.  C10 is claimed as proof, PARTIAL: the
+   pyparsing grammar (printed text -> rows) and h5py/HDF5 (file -> tree) are
+   bound to these models by the per-run correspondence only. *)
+From Coq Require Import List Bool Arith ZArith Reals.
+From Flocq Require Import Core.Core IEEE754.BinarySingleNaN.
+From VV Require Import Lib.B64 C10.Model C10.Proofs C10.Floats C10.Apollo C10.ApolloProofs.
+Import ListNotations.
+
+(* one axis, rows "a - b" that follow each other, printed in either order: after
+   add_last_bin and flip_if_decreasing, cell i of the result is the printed row
+   whose bounds are {bins[i], bins[i+1]} (rows in printed order, or reversed with
+   bounds swapped), and the bins are strictly increasing *)
+Theorem C10_flip_keeps_rows_attached :
+  forall (B V : Type) (ltb : B -> B -> bool) (rows : list (B * B * V)),
+  rows <> [] -> contiguous rows ->
+  let d := decreasing ltb (e_bins rows) in
+  cells (flip_if d (e_bins rows)) (flip_if d (map i_val rows))
+  = if d then rev (map swap rows) else rows.
+Proof. exact @axis_rows_attached. Qed.
+Print Assumptions C10_flip_keeps_rows_attached.
+
+Theorem C10_bins_increasing :
+  forall (B V : Type) (ltb : B -> B -> bool),
+  (forall x y, ltb x y = true -> ltb y x = false) ->
+  forall rows : list (B * B * V),
+  rows <> [] -> contiguous rows ->
+  (forall c, In c rows -> ltb (i_fst c) (i_snd c) = true) \/
+  (forall c, In c rows -> ltb (i_snd c) (i_fst c) = true) ->
+  adjacent_lt ltb (flip_if (decreasing ltb (e_bins rows)) (e_bins rows)).
+Proof. exact @axis_rows_increasing. Qed.
+Print Assumptions C10_bins_increasing.
+
+(* the time axis: steps (min, max) printed upwards or downwards *)
+Theorem C10_time_steps_attached :
+  forall (B V : Type) (ltb : B -> B -> bool),
+  (forall x y, ltb x y = true -> ltb y x = false) ->
+  forall steps : list (B * B * V),
+  steps <> [] ->
+  (contiguous steps /\ (forall c, In c steps -> ltb (i_fst c) (i_snd c) = true)) \/
+  (contiguous_down steps /\ 2 <= length steps /\
+   (forall c, In c steps -> ltb (i_fst c) (i_snd c) = true)) ->
+  let tb := t_bins ltb steps in
+  let d := decreasing ltb tb in
+  cells (flip_if d tb) (flip_if d (map i_val steps)) = (if d then rev steps else steps)
+  /\ adjacent_lt ltb (flip_if d tb).
+Proof. exact @axis_steps_attached. Qed.
+Print Assumptions C10_time_steps_attached.
+
+(* the energy x time plane of a spectrum printed by time steps *)
+Theorem C10_plane_attached :
+  forall (B S : Type) (ltb : B -> B -> bool),
+  (forall x y, ltb x y = true -> ltb y x = false) ->
+  forall (s0 : step B S) (rest : list (step B S)),
+  let steps := s0 :: rest in
+  rows s0 <> [] ->
+  (forall s, In s steps -> contiguous (rows s) /\ e_bins (rows s) = e_bins (rows s0)
+                           /\ length (rows s) = length (rows s0)) ->
+  ((forall c, In c (rows s0) -> ltb (i_fst c) (i_snd c) = true) \/
+   (forall c, In c (rows s0) -> ltb (i_snd c) (i_fst c) = true)) ->
+  ((contiguous (map step_interval steps) /\ (forall s, In s steps -> ltb (t_min s) (t_max s) = true)) \/
+   (contiguous_down (map step_interval steps) /\ 2 <= length steps /\
+    (forall s, In s steps -> ltb (t_min s) (t_max s) = true))) ->
+  let p := build_plane ltb true steps in
+  let de := decreasing ltb (e_bins (rows s0)) in
+  let dt := decreasing ltb (t_bins ltb (map step_interval steps)) in
+  let order := flip_if dt steps in
+  adjacent_lt ltb (p_ebins p) /\ adjacent_lt ltb (p_tbins p) /\
+  p_vals p = map (fun s => flip_if de (map snd (rows s))) order /\
+  p_integ p = map integ order /\
+  cells (p_tbins p) order = map step_interval order /\
+  (forall s, In s steps ->
+     cells (p_ebins p) (flip_if de (map snd (rows s)))
+     = if de then rev (map swap (rows s)) else rows s) /\
+  p_ebins_integ p = first_last (p_ebins p).
+Proof. exact @plane_attached. Qed.
+Print Assumptions C10_plane_attached.
+
+(* numpy's "<" on binary64 satisfies the order hypothesis of the theorems above *)
+Theorem C10_binary64_order_asymmetric :
+  forall x y : b64, flt x y = true -> flt y x = false.
+Proof. exact flt_asym. Qed.
+Print Assumptions C10_binary64_order_asymmetric.
+
+(* error = (sigma * value) * 0.01 in binary64, and its reading over the reals *)
+Theorem C10_convert_error_is_value_times_sigma_percent :
+  forall score sigma : b64,
+  (snd (convert (score, sigma)) = fmul (fmul sigma score) c001 /\ fst (convert (score, sigma)) = score) /\
+  (let rnd := round radix2 (SpecFloat.fexp 53 1024) (round_mode mode_NE) in
+   Rlt_bool (Rabs (rnd (B2R sigma * B2R score))) (bpow radix2 1024) = true ->
+   Rlt_bool (Rabs (rnd (rnd (B2R sigma * B2R score) * B2R c001))) (bpow radix2 1024) = true ->
+   B2R (snd (convert (score, sigma))) = rnd (rnd (B2R sigma * B2R score) * B2R c001)
+   /\ is_finite (snd (convert (score, sigma))) = is_finite sigma && is_finite score)%R.
+Proof. intros score sigma. split; [apply convert_error_expr | apply convert_error_real]. Qed.
+Print Assumptions C10_convert_error_is_value_times_sigma_percent.
+
+(* Apollo3: on a well-formed standard-layout tree every result the Reader
+   lists, with its labels (output, zone, isotope, name), is returned
+   identically (array, scalar/array, bins, what) by the Picker *)
+Theorem C10_reader_picker_agree :
+  forall (f : file) (es : list entry),
+  wf_file f -> reader f = ROk es ->
+  forall e, In e es -> pick f (e_out e) (e_zone e) (e_key e) (e_iso e) = ROk (e_ds e).
+Proof. exact reader_picker_agree. Qed.
+Print Assumptions C10_reader_picker_agree.
+
+Theorem C10_wellformed_check_sound :
+  forall f : file, wf_fileb f = true -> wf_file f.
+Proof. exact wf_fileb_sound. Qed.
+Print Assumptions C10_wellformed_check_sound.
